@@ -205,7 +205,13 @@ class Tiny:
                 self.trace.append((f, args))
                 r = self.calls[f]
                 return r(*args) if callable(r) else r
-            if self.default_call is not None:
+            callee = None
+            if isinstance(e.func, (ast.Name, ast.Attribute, ast.Subscript)):
+                try:
+                    callee = self.ev(e.func)
+                except (AnalysisError, TinyRaise):
+                    callee = None
+            if (isinstance(callee, Sym) and "__call__" in callee.methods) or self.default_call is not None:
                 args = []
                 for a in e.args:
                     if isinstance(a, ast.Starred):
@@ -224,6 +230,9 @@ class Tiny:
                         kwargs.update(v)
                     else:
                         kwargs[k.arg] = self.ev(k.value)
+                if isinstance(callee, Sym) and "__call__" in callee.methods:
+                    self.trace.append((callee.name, args, kwargs))
+                    return callee.methods["__call__"](*args, **kwargs)
                 self.trace.append((f, args, kwargs))
                 try:
                     return self.default_call(f, args, kwargs)
@@ -310,7 +319,8 @@ class Tiny:
                         del base[k]
                     else:
                         self.env.pop(norm.text(t), None)
-            elif isinstance(st, ast.For) and isinstance(st.target, ast.Name):
+            elif isinstance(st, ast.For) and (isinstance(st.target, ast.Name) or
+                                              (isinstance(st.target, ast.Tuple) and all(isinstance(x, ast.Name) for x in st.target.elts))):
                 seq = self.ev(st.iter)
                 if isinstance(seq, dict):
                     seq = list(seq)
@@ -319,7 +329,14 @@ class Tiny:
                 i = 0
                 broke = False
                 while i < len(seq):  # live iteration, like CPython's list iterator
-                    self.env[st.target.id] = seq[i]
+                    if isinstance(st.target, ast.Name):
+                        self.env[st.target.id] = seq[i]
+                    else:
+                        item = seq[i]
+                        if not (isinstance(item, (list, tuple)) and len(item) == len(st.target.elts)):
+                            raise TinyRaise("ValueError")
+                        for x, vv in zip(st.target.elts, item):
+                            self.env[x.id] = vv
                     i += 1
                     r = self._run(st.body, stop)
                     if r[0] == "break":
